@@ -2,6 +2,8 @@ package main
 
 import (
 	"fmt"
+	"os"
+	"strings"
 
 	"github.com/jsightapi/jsight-api-core/kit"
 	"simrt"
@@ -98,6 +100,22 @@ func applyEnv(e Env) {
 		pol = simrt.PoolFreshOnly
 	}
 	simrt.PoolSimSet(simrt.PoolConfig{Policy: pol})
+	if e.Cwd != "" && cwdPrefix != "" {
+		if err := os.Chdir(cwdPrefix + e.Cwd); err == nil {
+			cwdMoved = true
+		}
+	}
+}
+
+// cwdMoved: the process is not in the worker's own directory (Env.Cwd). Only single-task code
+// moves it, and canonicalEnv / Materialise bring it back.
+var cwdMoved bool
+
+func resetCwd() {
+	if cwdMoved {
+		must(os.Chdir(strings.TrimSuffix(cwdPrefix, "/")))
+		cwdMoved = false
+	}
 }
 
 // canonicalEnv: canonical map order, ambient seed 0, and a pool that never reuses anything.
@@ -105,6 +123,7 @@ func applyEnv(e Env) {
 // the goroutine happens to run on and on GC cycles, neither of which the simulator controls -
 // a violation that depends on it would not replay.
 func canonicalEnv() {
+	resetCwd()
 	simrt.SetMapOrder(0, 0, nil)
 	simrt.SetAmbient(0)
 	taskSeed = 0
